@@ -274,6 +274,8 @@ class SimpleD:
             vals[1] = vals[0] + 1e-13          # equivalent to the first one: refused
         elif r < 0.12:
             probs[0] += 0.125                  # does not sum to one: refused
+        elif r < 0.17:
+            probs[0] += 5e-13                  # within the precision of 1: accepted, stored as given (normalised up to the precision)
         # precision of the map: the default 1e-12, sometimes 0 (exact comparison) or coarse
         prec = 1e-12 if self.rng.random() < 0.8 else self.rng.choice([0.0, 0.0, 1e-3])
         return "new simple %s 0 %d %s" % (hx(prec), self.k, " ".join(hx(v) + " " + hx(p) for v, p in zip(vals, probs)))
